@@ -203,6 +203,14 @@ def run_property(prop, tier, seed, jobs=None, only=None, timeout_ms=None):
                         d["clauses"] = {"cell-watchdog": {"status": "undecided", "props": sorted(set(
                             p for l in all_lemmas() if l.name == t[0] for p in l.props)), "n": 1, "ms": limit * 1000.0}}
                         d["undecided"] = [{"clause": "cell-watchdog", "reason": payload}]
+                        # the symbolic exploration did not finish: look for a concrete witness with the lemma's probes
+                        try:
+                            from .core import probe_cell
+                            lem = [l for l in all_lemmas() if l.name == t[0]][0]
+                            pr = probe_cell(lem, t[1])
+                            d["failures"] = pr.failures
+                        except Exception as e:  # noqa
+                            d["errors"] = ["probe after watchdog failed: %s" % e]
                     else:
                         d["errors"] = ["worker %s: %s" % (status, payload)]
                     fresh.append(d)
